@@ -288,3 +288,27 @@ def random_connected(rng, nmax, nmin=1):
     if len(A) == 0:
         A = path(1)
     return A, fam
+
+
+def two_switch(rng, A, times=1):
+    """degree-preserving edge switches: (a,b),(c,d) -> (a,d),(c,b); keeps the graph simple and connected, else returns it unchanged.
+    The result has the same degree sequence (for diameter-2 graphs: the same per-vertex distance profiles) but is usually not isomorphic."""
+    B = np.array(A, copy=True)
+    n = len(B)
+    for _ in range(times):
+        for _try in range(30):
+            es = np.argwhere(np.triu(B, 1) > 0)
+            if len(es) < 2:
+                return B
+            (a, b), (c, d) = es[rng.integers(0, len(es))], es[rng.integers(0, len(es))]
+            if rng.random() < 0.5:
+                c, d = d, c
+            if len({a, b, c, d}) < 4 or B[a, d] or B[c, b]:
+                continue
+            C = B.copy()
+            C[a, b] = C[b, a] = C[c, d] = C[d, c] = 0
+            C[a, d] = C[d, a] = C[c, b] = C[b, c] = 1
+            if len(components(C)) == 1:
+                B = C
+                break
+    return B
